@@ -8,39 +8,10 @@
 #include "galois/gdeque.h"
 #include "galois/gslist.h"
 
-#include <csetjmp>
-#include <csignal>
 #include <deque>
 #include <memory>
 
 namespace c14 {
-
-// Runs f(); returns false if it raised SIGABRT (a failed assert) or SIGSEGV.
-// Used only where the unchanged library is known to die, so that the verdict
-// carries a precise key and the same check passes once the library is fixed.
-inline sigjmp_buf& survive_jb() {
-  static sigjmp_buf jb;
-  return jb;
-}
-inline void survive_handler(int) { siglongjmp(survive_jb(), 1); }
-template <class F>
-inline bool survives(F f) {
-  struct sigaction sa, oa, os;
-  memset(&sa, 0, sizeof sa);
-  sa.sa_handler = survive_handler;
-  sigemptyset(&sa.sa_mask);
-  sa.sa_flags = SA_NODEFER;
-  sigaction(SIGABRT, &sa, &oa);
-  sigaction(SIGSEGV, &sa, &os);
-  bool ok = false;
-  if (sigsetjmp(survive_jb(), 1) == 0) {
-    f();
-    ok = true;
-  }
-  sigaction(SIGABRT, &oa, nullptr);
-  sigaction(SIGSEGV, &os, nullptr);
-  return ok;
-}
 
 void need_runtime(); // defined in c14_containers.cpp
 bool parent_root(const std::vector<int>& hist);
